@@ -4,12 +4,17 @@ CONSTANTS
   BoundSel = {1,2}
   FactorSel = {1}
   PriorSel = {1,2,4}
+  ModeSel = {1,2}
   KSel = {2,4}
   MaxLevel = 6
   PriorTable = "persist_all"
   ViewSpace = "prior_mode"
   DerivedLookup = "derived"
   ObsMerge = "always"
+  ModeStore = "canonical"
+  UpdateGuard = "before"
+  ModeCalls <- MCModeCalls
+  InvalidModes <- MCInvalidOne
   ObsParams <- MCObsParams
   Record = FALSE
   Export = "none"
